@@ -28,14 +28,20 @@ CLAIMED = {
                   "recomputes the least solution from the implementation's own graph and reports the program on any difference.",
              design="8/C02", note=NOTE + "Hypothesis wf_live (function ids resolve, returns have no successors) is what C03/C11 establish for pipeline graphs. Non-termination of the pass is C06's business (OutOfFuel is excluded by the theorem's premise).",
              technique="Coq proof (fixed-point/least-solution argument) + differential correspondence"),
- "C03": dict(text="CFG: Coq theorems prove for every program and every exit choice that after every pipeline stage nexts/prevs are exact inverses, "
-                  "that every edge of the finished graph is a fall-through, a jump to the written label or a return merge, that returns and exit "
-                  "ecalls have no successors, and that 'unreachable code' is reported only on nodes without predecessors. Tied to graph.rs/"
-                  "directions.rs/dead_code.rs/ecall_terminate.rs/function_annotations.rs by comparing the graph after each stage; the checker also "
-                  "verifies on the implementation's graph that every static control transfer is an edge. The dynamic clause (executions) is "
-                  "covered only through these static facts.",
-             design="8/C03", note=NOTE + "Not proved: the statement over concrete RV32IM executions (no machine semantics in the model yet).",
-             technique="Coq proof (graph invariants by induction over the passes) + differential correspondence"),
+ "C03": dict(text="CFG, both directions. Coq theorems prove for every program and every exit choice that after every pipeline stage nexts/prevs are exact "
+                  "inverses, that every edge of the finished graph is a fall-through, a jump to the written label or a return merge, that returns and "
+                  "exit ecalls have no successors, and that 'unreachable code' is reported only on nodes without predecessors (Props/C03.v). "
+                  "Props/C03dyn.v proves the converse: with the program-counter successor relation pc_succ written from the ISA and the label "
+                  "definitions (never from the edges), every transfer out of a connected node is an edge (C03_transfers_are_edges, sharp case form "
+                  "C03dyn_transfer_cases), every program-counter run from a program or function entry stays graph-reachable and no node on it is "
+                  "reported as unreachable code (C03dyn_runs_reach, C03dyn_runs_not_unreachable, C03dyn_free_runs for programs without dead ends). "
+                  "Tied to graph.rs/directions.rs/dead_code.rs/ecall_terminate.rs/function_annotations.rs by comparing the graph after each stage; "
+                  "the checker verifies on the implementation's graph that every static transfer is an edge and, with a concrete interpreter, that "
+                  "every executed transfer is an edge.",
+             design="8/C03", note=NOTE + "Hypotheses of the converse, each refuted without it by a computed program and each implied by the property's quantifier (every path ends in ret or an "
+                  "exit ecall; no indirect jumps other than ret): source and target are not disconnected by the dead-code pass (code falling off the end or ending in `jr reg`), the "
+                  "instruction is not a computed jump, and the ecall was not classified as an exit by the first value analysis only.",
+             technique="Coq proof (graph invariants by induction over the passes; edge completeness against an ISA-level successor relation) + differential correspondence + interpreter oracle"),
  "C07": dict(text="Lines: Coq theorems prove that lexing is a homomorphism over blocks of complete lines (so editing one line never changes the tokens "
                   "of another), that parsing any single file terminates without panic, and that, unless the unsupported .macro is used, every "
                   "significant token and every lexical error is inside the range of a produced node or on a line with a reported parse error "
